@@ -438,6 +438,22 @@ def filter_shapes(out, prop, tier, seed):
     out.sample({"shape": shapes[len(shapes) // 2], "classes": results[len(shapes) // 2]["cls"]})
 
 
+def apalache_leap_lemma(out):
+    """C04 for unbounded vote counts: Apalache discharges the inductive invariant of spec/apalache/LeapVoteInd.tla
+    (initiation at length 0, consecution at length 1)."""
+    import subprocess
+    wd = vf.workdir("apalache_leap")
+    for args in (["--init=Init", "--inv=IndInv", "--length=0"], ["--init=IndInit", "--inv=IndInv", "--length=1"]):
+        cmd = ["apalache-mc", "check", "--out-dir=" + wd] + args + ["LeapVoteInd.tla"]
+        try:
+            p = subprocess.run(cmd, cwd=os.path.join(vf.SPEC, "apalache"), stdout=subprocess.PIPE, stderr=subprocess.STDOUT, text=True, timeout=1200)
+        except subprocess.TimeoutExpired:
+            raise vf.ToolError("apalache timed out on LeapVoteInd (%s)" % " ".join(args))
+        if "EXITCODE: OK" not in p.stdout:
+            raise vf.ToolError("apalache did not discharge LeapVoteInd %s:\n%s" % (" ".join(args), p.stdout[-1500:]))
+        out.add("apalache_inductive_obligations_discharged", 1)
+
+
 # ------------------------------------------------------------------------------------------------
 def run(prop, tier, seed):
     out = vf.Outcome(prop, tier, seed, MANIFEST[prop]["level"])
@@ -452,6 +468,8 @@ def run(prop, tier, seed):
         out.coverage["rule"] = ("every multiset of leap indicators of the bounded enumeration is voted on by the specification and, in "
                                 "three orders, by the real combine(); results must be identical")
         leap_pure(out, prop, tier, seed)
+        if tier == "thorough":
+            apalache_leap_lemma(out)
         ctl_model(out, prop, tier, seed)
         out.coverage.setdefault("traces_validated_against_impl", 0)
     elif prop in ("C01", "C02", "C37"):
